@@ -1,0 +1,44 @@
+package cmd
+
+import (
+	"context"
+
+	"cosmossdk.io/client/v2/autocli/flag"
+	"cosmossdk.io/math"
+	"google.golang.org/protobuf/reflect/protoreflect"
+)
+
+// decimalScalar is the scalar name of the protobuf fields that carry a math.LegacyDec.
+const decimalScalar = "cosmos.Dec"
+
+// decimalType is the autocli flag type of cosmos.Dec fields. On the wire a LegacyDec is its 18 digit fixed point
+// integer, so a plain string flag would send what the user types as that integer ("2" would be 2e-18 and "0.5" would
+// be refused). This type reads a decimal number and sends its wire form.
+type decimalType struct{}
+
+func (decimalType) NewValue(*context.Context, *flag.Builder) flag.Value { return &decimalValue{} }
+
+func (decimalType) DefaultValue() string { return "" }
+
+type decimalValue struct {
+	typed string // what the user typed
+	wire  string // the fixed point integer that is sent
+}
+
+func (v *decimalValue) Get(protoreflect.Value) (protoreflect.Value, error) {
+	return protoreflect.ValueOfString(v.wire), nil
+}
+
+func (v *decimalValue) String() string { return v.typed }
+
+func (v *decimalValue) Set(s string) error {
+	dec, err := math.LegacyNewDecFromStr(s)
+	if err != nil {
+		return err
+	}
+	v.typed = s
+	v.wire = dec.BigInt().String()
+	return nil
+}
+
+func (v *decimalValue) Type() string { return "decimal" }
